@@ -304,6 +304,8 @@ func metadataFromProto(trailers map[string]*TrailerValues) metadata.MD {
 }
 
 func (cs *clientStream) CloseSend() error {
+	verifPoint("http.close.do")
+	defer verifPoint("http.close.ret")
 	cs.wMu.Lock()
 	defer cs.wMu.Unlock()
 	return cs.w.Close()
@@ -334,11 +336,13 @@ func (cs *clientStream) readErrorIfDone() (bool, error) {
 }
 
 func (cs *clientStream) SendMsg(m interface{}) error {
+	verifPoint("http.send.enter")
 	// GRPC streams return EOF error for attempts to send on closed stream
 	if done, _ := cs.readErrorIfDone(); done {
 		return io.EOF
 	}
 
+	verifPoint("http.send.lock")
 	cs.wMu.Lock()
 	defer cs.wMu.Unlock()
 	if cs.wErr != nil {
@@ -346,15 +350,19 @@ func (cs *clientStream) SendMsg(m interface{}) error {
 		return io.EOF
 	}
 
+	verifPoint("http.send.write")
 	cs.wErr = writeProtoMessage(cs.w, cs.codec, m, false)
+	verifPoint("http.send.ret")
 	return cs.wErr
 }
 
 func (cs *clientStream) RecvMsg(m interface{}) error {
+	verifPoint("http.recv.enter")
 	if done, err := cs.readErrorIfDone(); done {
 		return err
 	}
 
+	verifPoint("http.recv.select")
 	select {
 	case <-cs.ctx.Done():
 		return statusFromContextError(cs.ctx.Err())
@@ -377,12 +385,14 @@ func (cs *clientStream) RecvMsg(m interface{}) error {
 			// error. And if there isn't a second message, we still need to see the
 			// channel close (e.g. end-of-stream) so we know that tr is set (so that
 			// it's available for a subsequent call to Trailer)
+			verifPoint("http.recv.probe")
 			select {
 			case <-cs.ctx.Done():
 				return statusFromContextError(cs.ctx.Err())
 			case _, ok := <-cs.rCh:
 				if ok {
 					// server tried to send >1 message!
+					verifPoint("http.recv.second")
 					cs.rMu.Lock()
 					defer cs.rMu.Unlock()
 					if cs.rErr == nil {
@@ -420,6 +430,7 @@ func (cs *clientStream) doHttpCall(transport http.RoundTripper, req *http.Reques
 	rMuHeld := false
 
 	defer func() {
+		verifPoint("http.rd.fin")
 		if !rMuHeld {
 			cs.rMu.Lock()
 		}
@@ -452,6 +463,7 @@ func (cs *clientStream) doHttpCall(transport http.RoundTripper, req *http.Reques
 	go func() {
 		select {
 		case <-cs.ctx.Done():
+			verifPoint("http.watch")
 			readPipe.CloseWithError(statusFromContextError(cs.ctx.Err()))
 		case <-callDone:
 		}
@@ -468,6 +480,7 @@ func (cs *clientStream) doHttpCall(transport http.RoundTripper, req *http.Reques
 	}
 
 	reply, err := transport.RoundTrip(req.WithContext(cs.ctx))
+	verifPoint("http.rd.rt")
 	if err != nil {
 		onReady(statusFromContextError(err), nil)
 		return
@@ -503,6 +516,7 @@ func (cs *clientStream) doHttpCall(transport http.RoundTripper, req *http.Reques
 
 		counter++
 		var sz int32
+		verifPoint("http.rd.read")
 		sz, rErr = readSizePreface(reply.Body)
 		if rErr != nil {
 			if rErr == io.EOF {
@@ -545,6 +559,7 @@ func (cs *clientStream) doHttpCall(transport http.RoundTripper, req *http.Reques
 			return
 		}
 
+		verifPoint("http.rd.deliver")
 		select {
 		case <-cs.ctx.Done():
 			// operation timed out or was cancelled before we could
